@@ -57,6 +57,37 @@ theorem synth_beyond (rmax N : ℕ) (c : ℕ → ℕ → K) (bin : ℕ) (h : rma
   have h2 : ¬ bin + 1 ≤ rmax := by omega
   simp [cz, h1, h2]
 
+
+/-- **the image is continuous across every bin boundary**: the upper end of bin `k` (`wu = 1`) is the lower end of bin `k + 1`
+    (`wu = 0`) — at all radii, including the two boundaries of the fall-off zone -/
+theorem synth_continuous (rmax N : ℕ) (c : ℕ → ℕ → K) (k : ℕ) (t : K) :
+    synth rmax N c k 1 t = synth rmax N c (k + 1) 0 t := by
+  rw [synth_eq_sum, synth_eq_sum]
+  congr 1
+  apply List.map_congr_left
+  intro n _
+  ring
+
+/-- **the image is determined by the distributions it is said to describe**: only the values `c n k` with `n < N` and `k ≤ rmax`
+    enter — anything stored beyond (`rmax + 1 …`, higher orders) is never read -/
+theorem synth_congr (rmax N : ℕ) (c d : ℕ → ℕ → K) (h : ∀ n k, n < N → k ≤ rmax → c n k = d n k) (bin : ℕ) (wu t : K) :
+    synth rmax N c bin wu t = synth rmax N d bin wu t := by
+  rw [synth_eq_sum, synth_eq_sum]
+  congr 1
+  apply List.map_congr_left
+  intro n hn
+  have hn' : n < N := List.mem_range.mp hn
+  have e : ∀ k, cz rmax c n k = cz rmax d n k := by
+    intro k; unfold cz; split
+    · exact h n k hn' ‹_›
+    · rfl
+  rw [e, e]
+
+/-- zero distributions give the zero image -/
+theorem synth_zero (rmax N : ℕ) (bin : ℕ) (wu t : K) : synth rmax N (fun _ _ => (0 : K)) bin wu t = 0 := by
+  rw [synth_eq_sum]
+  simp [cz]
+
 /-- the image is linear in the distributions -/
 theorem synth_linear (rmax N : ℕ) (c d : ℕ → ℕ → K) (a b : K) (bin : ℕ) (wu t : K) :
     synth rmax N (fun n k => a * c n k + b * d n k) bin wu t
